@@ -113,12 +113,22 @@ def run_property(prop, tier='quick', replay=None, root=None, write_evidence=True
     if replay:
         with open(replay) as f: want = json.load(f)['key']
         failed = [o for o in failed if o.key == want]
+    # a known finding is identified by rule + file + function (+ the construct text unless the entry says "match": "function": construct texts
+    # change when a local variable is renamed, the finding does not)
+    fn_scope = {}
+    for k_, e_ in known_keys.items():
+        if e_.get('match') == 'function': fn_scope['::'.join(k_.split('::')[:3]) + '::'] = e_
+    def known_entry(o):
+        if o.key in known_keys: return known_keys[o.key]
+        for pre, e_ in fn_scope.items():
+            if o.key.startswith(pre): return e_
+        return None
     viol, kf = [], []
     for o in failed:
-        (kf if o.key in known_keys else viol).append(o)
+        (kf if known_entry(o) is not None else viol).append(o)
     os.makedirs(os.path.join(EVID, 'replay'), exist_ok=True)
     for o in kf:
-        emit('KNOWN-FINDING: property=%s %s [%s at %s]' % (prop, known_keys[o.key]['what'], o.rule, o.loc))
+        emit('KNOWN-FINDING: property=%s %s [%s at %s]' % (prop, known_entry(o)['what'], o.rule, o.loc))
     for o in viol:
         h = hashlib.sha1(o.key.encode()).hexdigest()[:10]
         rp = os.path.join(EVID, 'replay', '%s-%s.json' % (prop, h))
@@ -127,7 +137,7 @@ def run_property(prop, tier='quick', replay=None, root=None, write_evidence=True
                        'construct': o.construct, 'detail': o.detail, 'expected': o.expected}, f, indent=1)
         emit('VIOLATION property=%s replay=%s' % (prop, rp))
         emit('  rule=%s at %s in %s\n  construct: %s\n  %s' % (o.rule, o.loc, o.fn, o.construct, o.detail))
-    stale = [k for k in known_keys if k not in {o.key for o in failed}]
+    stale = [k for k, e_ in known_keys.items() if not any(known_entry(o) is e_ for o in failed)]
     n_ok = sum(1 for o in ctx.obs if o.ok)
     emit('%s: %d obligations, %d discharged, %d known findings, %d violations; analysed: %s' % (
         prop, len(ctx.obs), n_ok, len(kf), len(viol),
